@@ -162,6 +162,34 @@ theorem statement_other (hc : KeywordFree e.name)
   rw [hpair] at hd
   exact ⟨by simpa [nth5] using hd, he (Or.inr hcvt)⟩
 
+/-- **The statement on DMA slices whose keyword is not a suffix.** The FLEX dialect classifies DmaI / DmaO slices
+with unanchored patterns (`is.name; DmaI`, `is.name; DmaO`), e.g. `Host DMA Wdone DmaI [to rank 0]`.  For such a
+name — the blank-led keyword `i ∈ {0 = DmaI, 3 = DmaO}` anywhere, no keyword of another phase — stage 1 and stage 2
+may classify differently (`endswith` versus `in`), still `_match_opIds_from_event` yields `[i]`, the duration is
+`(TS(i+2) − TS(i+1)) / f` and the end stays at the host-recorded end. -/
+theorem statement_midname_dma (i : Nat) (hc : MidnameDma e.name i)
+    (hph : e.ph = "X") (htsx : e.tsx = some [c1, c2, c3, c4, c5]) (h : both f e = .ok o) :
+    opIds e.name = [i] ∧
+      o.dur = ((nth5 c1 c2 c3 c4 c5 (i + 1) - nth5 c1 c2 c3 c4 c5 i : Int) : Rat) / f ∧
+      o.ts + o.dur = e.ts + e.dur := by
+  obtain ⟨hin, hoth⟩ := midnameDma_facts hc
+  have hop : opIds e.name = [i] := by
+    rcases hc.1 with rfl | rfl
+    · have a := (hoth 1 (by omega) (by omega)).1
+      have b := (hoth 2 (by omega) (by omega)).1
+      have d := (hoth 3 (by omega) (by omega)).1
+      simp only [kwB] at *
+      simp [opIds, *]
+    · have a := (hoth 0 (by omega) (by omega)).1
+      have b := (hoth 1 (by omega) (by omega)).1
+      have d := (hoth 2 (by omega) (by omega)).1
+      simp only [kwB] at *
+      simp [opIds, *]
+  obtain ⟨hd, he⟩ := both_dev hph htsx h
+  have hpair : durPair e.name = (i, i + 1) := by simp [durPair, hop]
+  rw [hpair] at hd
+  exact ⟨hop, hd, he (Or.inl (by rw [hop]; simp))⟩
+
 /-- **The asserts do not fire** (for every name): with a positive frequency, non-decreasing counters and a host
 end that leaves room for the whole device interval (`(TS5−TS1)/f ≤ ts+dur`, i.e. every projected start is
 non-negative) both stages return. -/
@@ -230,6 +258,16 @@ example : Canonical "mm_1 DmaI" 0 ∧ Canonical "mm_1 Cmpt Prep" 1 ∧ Canonical
     intro j hj
     have : j = 0 ∨ j = 1 ∨ j = 2 ∨ j = 3 := by omega
     rcases this with rfl | rfl | rfl | rfl <;> decide
+
+/-- the slice name of the coordinator's counterexample is a mid-name DmaI slice: stage 1 anchors TS5, stage 2 TS2 -/
+example : MidnameDma "Host DMA Wdone DmaI [to rank 0]" 0 ∧ cvtRefIdx "Host DMA Wdone DmaI [to rank 0]" = 4 ∧
+    ¬ Canonical "Host DMA Wdone DmaI [to rank 0]" 0 := by
+  refine ⟨⟨Or.inl rfl, by decide, ?_⟩, by decide, ?_⟩
+  · intro j hj
+    have : j = 0 ∨ j = 1 ∨ j = 2 ∨ j = 3 := by omega
+    rcases this with rfl | rfl | rfl | rfl <;> decide
+  · intro hcan
+    exact absurd hcan.1 (by decide)
 
 /-- a concrete Exec slice passes both stages at 512 and at 1024 MHz: dur 60 → 30, end 1060 kept -/
 def demo : Ev :=
